@@ -31,7 +31,7 @@ pub struct ABlock {
 pub struct Layout {
     pub crlf: bool,
     pub order: u8,     // 0 file, 1 reversed, 2 rotated
-    pub numfmt: u8,    // 0 shortest, 1 %f (6 decimals), 2 right-aligned width 14
+    pub numfmt: u8,    // 0 shortest, 1 %f (6 decimals), 2 right-aligned width 14, 3 exponent with explicit sign (7e+00)
     pub quote_words: bool,
     pub lists: u8,     // 0 one line, 1 broken after every comma, 2 broken + closing paren on its own line
     pub comments: u8,  // 0 none, 1 between blocks, 2 between and inside blocks (+ blank lines)
@@ -44,7 +44,7 @@ impl Layout {
         let mut v = vec![];
         for crlf in [false, true] {
             for order in 0..3 {
-                for numfmt in 0..3 {
+                for numfmt in 0..4 {
                     for quote_words in [false, true] {
                         for lists in 0..3 {
                             for comments in 0..3 {
@@ -76,9 +76,18 @@ pub fn fmt_num(x: f32, numfmt: u8) -> String {
             }
         }
         1 => format!("{:.6}", x),
-        _ => {
+        2 => {
             let s = if x == x.trunc() && x.abs() < 1e7 { format!("{}", x as i64) } else { format!("{}", x) };
             format!("{:>14}", s)
+        }
+        _ => {
+            // exponent notation with an explicit exponent sign, as in `VAPOUR-DIFFUSIVITY-FACTOR = 1e+30` of the legacy files
+            let e = format!("{:e}", x);
+            match e.split_once('e') {
+                Some((m, ex)) if !ex.starts_with('-') => format!("{}e+{:0>2}", m, ex),
+                Some((m, ex)) => format!("{}e-{:0>2}", m, ex.trim_start_matches('-')),
+                None => e,
+            }
         }
     }
 }
@@ -107,7 +116,7 @@ fn fmt_val(v: &AVal, l: &Layout, ind: &str) -> String {
         AVal::NumList(xs) => {
             let mut s = "( ".to_string();
             for (i, x) in xs.iter().enumerate() {
-                s += fmt_num(*x, if l.numfmt == 2 { 0 } else { l.numfmt }).trim();
+                s += fmt_num(*x, if l.numfmt >= 2 { 0 } else { l.numfmt }).trim();
                 s += &sep(i, xs.len());
             }
             s + &close
@@ -130,7 +139,7 @@ fn fmt_val(v: &AVal, l: &Layout, ind: &str) -> String {
         }
         AVal::Point(xs) => {
             // vertices are always written on one line
-            let items: Vec<String> = xs.iter().map(|x| fmt_num(*x, if l.numfmt == 2 { 0 } else { l.numfmt }).trim().to_string()).collect();
+            let items: Vec<String> = xs.iter().map(|x| fmt_num(*x, if l.numfmt >= 2 { 0 } else { l.numfmt }).trim().to_string()).collect();
             format!("( {} )", items.join(", "))
         }
         AVal::Raw(s) => s.clone(),
